@@ -17,7 +17,7 @@ raise StopStream: event ('exhausted', stream)), ('yield', v) for `yield v`,
            times and yields a copy of that value each time
 """
 import z3
-from vf.pyvc.spec import contract, lemma, Loop
+from vf.pyvc.spec import contract, lemma, Loop, REGISTRY
 from vf.pyvc.values import *
 from vf.pyvc import values as VV
 from vf.pyvc.engine import Raised, Unsupported
@@ -117,6 +117,52 @@ contract(F, 'Pn.__embed__', props=('C13',), params={'self': 'self', 'inevent': '
          **common)
 
 
+# Pn with a key: every pass first marks the event it is about to hand down (event[key] = True), and after the
+# last repetition the event that came back is marked False - on that event, not on an earlier one.
+def pnk_setitem(eng, obj, idx, v, st, node):
+    if obj.k == 'obj' and idx.k == 'obj' and idx.oid == 'self.key':
+        st.trace.append(('set-key', obj, v))
+        return [('next', st)]
+    return None
+
+
+def pnk_pass(c, L):
+    ev = since(c.trace, 1)
+    if not ev:
+        return z3.BoolVal(True)
+    ev = [e for e in ev if e[0] in EVS + ('set-key',)]
+    if [e[0] for e in ev] != ['set-key', 'embed', 'yield-from']:
+        return z3.BoolVal(False)
+    head = c.st.ghost.get('inevent_at_head')
+    pat = c.pre.self.v('pattern')
+    ok = (ev[0][1] is head and ev[0][2].k == 'bool' and z3.is_true(z3.simplify(ev[0][2].z))    # marked BEFORE it goes down
+          and ev[1][1].k == pat.k and ev[1][1].oid == pat.oid and ev[1][2] is head
+          and ev[2][1] is ev[1][3] and c.st.env['inevent'] is ev[2][2])
+    return z3.BoolVal(bool(ok))
+
+
+def pnk_post(c):
+    sets = [e for e in c.trace if e[0] == 'set-key']
+    ok = (sets and sets[-1][1] is c.st.env['inevent'] and sets[-1][2].k == 'bool'
+          and z3.is_false(z3.simplify(sets[-1][2].z)) and c.trace[-1] is sets[-1]               # last thing: unmarked
+          and c.resultv is c.st.env['inevent'])
+    return z3.BoolVal(bool(ok))
+
+
+_pn_no_key = REGISTRY.pop('%s::Pn.__embed__' % F)
+contract(F, 'Pn.__embed__', props=('C13',), params={'self': 'self', 'inevent': 'obj'},
+         ensures=[('event-unmarked-at-the-end-and-returned', pnk_post)],
+         fields={'Pn': {'pattern': 'obj', 'key': 'obj', 'repeats': 'obj'}},
+         loops={1: Loop(inv=pnk_pass, kinds={'inevent': 'obj', '_': 'int'}, havoc_hook=remember('inevent'))},
+         policies={'sc3/base/stream.py::embed': embed_pol, 'counter': counter_pol},
+         class_modules={'Pn': F}, hooks={'getattr': h_getattr, 'setitem': pnk_setitem},
+         opts={'generator_trace': True}, native=False, note='the variant with a key')
+_k = '%s::Pn.__embed__#with-key' % F
+REGISTRY[_k] = REGISTRY.pop('%s::Pn.__embed__' % F)
+REGISTRY[_k].key = _k
+REGISTRY['%s::Pn.__embed__' % F] = _pn_no_key
+
+
 # ---- Plen -------------------------------------------------------------------------------
 def plen_pass(c, L):
     ev = events(c, 0)
@@ -171,7 +217,7 @@ def pconst_end(c):
 contract(F, 'Pconst.__embed__', props=('C13',), params={'self': 'self', 'inval': 'obj'},
          ensures=[('last-value-is-the-remainder', pconst_end)],
          fields={'Pconst': {'pattern': 'obj', 'sum': 'real', 'tolerance': 'real'}},
-         loops={0: Loop(inv=pconst_pass, kinds={'inval': 'obj', 'sum': 'real', 'next_sum': 'real',
+         loops={0: Loop(early_exit=True, inv=pconst_pass, kinds={'inval': 'obj', 'sum': 'real', 'next_sum': 'real',
                                                 'value': 'real'}, havoc_hook=remember('inval', 'sum'))},
          policies={'sc3/base/stream.py::stream': make_stream('real'),
                    'sc3/base/builtins.py::roundup': roundup_pol},
